@@ -38,6 +38,19 @@ def modules():
     return out
 
 
+def covered_leaves():
+    """{(target file, fn name): set of property ids} for every function named in a `// covers <test>: fn a, fn b` line:
+    the properties that the (assumed) contract of that leaf serves, as declared by the bounded check that re-checks it."""
+    out = {}
+    for m in modules():
+        for t in m['tests']:
+            covers = re.findall(r'fn (\w+)', ' '.join(re.findall(r'^// covers %s:(.*)' % t, m['text'], re.M)))
+            tp = re.findall(r'\bC\d\d\b', ' '.join(re.findall(r'^// props %s:([^\n(]*)' % t, m['text'], re.M))) or m['props']
+            for fn in covers:
+                out.setdefault((m['target'], fn), set()).update(tp)
+    return out
+
+
 def run(repo, scratch, prop=None, thorough=False):
     """Run the leaf checks that serve `prop` (all if None).  Returns a dict:
     {'ran': bool, 'undecided': str|None, 'wall_s': float, 'results': [{test, leaf, cases, outcome, detail, module, bound, props}]}"""
